@@ -66,6 +66,11 @@ def render (p : PPath) : Str :=
   | 1, ss => '/' :: joinStr ['/'] ss
   | _, ss => '/' :: '/' :: joinStr ['/'] ss
 
+/-- Python exception classes the modelled code can end in -/
+inductive Err
+  | loadError | inputError | runtimeError | fileNotFound | valueError | typeError
+  deriving DecidableEq, Repr
+
 /-! ## abstract file system -/
 
 structure FS where
@@ -91,10 +96,17 @@ def walk (fs : FS) : Nat → Segs → Segs → Option Segs
       | none => walk fs n (acc ++ [s]) rest
       | some t => walk fs n (if t.isAbsolute then [] else acc) (t.segs ++ rest)
 
-/-- `Path.resolve()` (non-strict): the result is always anchored at a single `/`;
-    `none` = symlink loop (`RuntimeError`) -/
-def FS.resolve (fs : FS) (p : PPath) : Option Segs :=
-  walk fs fs.fuel [] (if p.isAbsolute then p.segs else fs.cwd ++ p.segs)
+/-- the segment contains a NUL character (`os.lstat` / `os.stat` raise `ValueError: embedded null byte`) -/
+def hasNul (s : Str) : Bool := s.contains (Char.ofNat 0)
+
+/-- `Path.resolve()` (non-strict) as SPECIFIED: the result is always anchored at a single `/`;
+    a symlink loop is `RuntimeError`, a NUL character anywhere in the path is `ValueError` -/
+def FS.resolve (fs : FS) (p : PPath) : Except Err Segs :=
+  let start := if p.isAbsolute then p.segs else fs.cwd ++ p.segs
+  if start.any hasNul then .error .valueError
+  else match walk fs fs.fuel [] start with
+    | none => .error .runtimeError
+    | some q => if q.any hasNul then .error .valueError else .ok q   -- (a symlink target cannot hold a NUL)
 
 /-! ### what CPython 3.12 really does (`posixpath._joinrealpath`, `Path.resolve(strict=False)`)
 
@@ -110,13 +122,19 @@ def seenLookup (seen : Seen) (p : Segs) : Option (Option Segs) :=
   | some kv => some kv.2
   | none => none
 
+/-- how `_joinrealpath` ends: resolved / gave up at a symlink loop / (model only) out of fuel /
+    `os.lstat` raised `ValueError` for a name with a NUL character -/
+inductive JR | ok | loop | fuel | nul
+  deriving DecidableEq, Repr
+
 /-- `_joinrealpath(path, rest, strict=False, seen)` → `(path, ok)`; fuel bounds depth and steps -/
-def joinReal (fs : FS) : Nat → Segs → Segs → Seen → Segs × Bool × Seen
-  | _, acc, [], seen => (acc, true, seen)
-  | 0, acc, s :: rest, seen => (acc ++ s :: rest, false, seen)
+def joinReal (fs : FS) : Nat → Segs → Segs → Seen → Segs × JR × Seen
+  | _, acc, [], seen => (acc, .ok, seen)
+  | 0, acc, s :: rest, seen => (acc ++ s :: rest, .fuel, seen)
   | n + 1, acc, s :: rest, seen =>
     if isDot s then joinReal fs n acc rest seen
     else if isDotDot s then joinReal fs n acc.dropLast rest seen
+    else if hasNul s then (acc ++ s :: rest, .nul, seen)      -- `os.lstat(newpath)`: embedded null byte
     else
       let newpath := acc ++ [s]
       match readlink fs newpath with
@@ -124,35 +142,37 @@ def joinReal (fs : FS) : Nat → Segs → Segs → Seen → Segs × Bool × Seen
       | some t =>
         match seenLookup seen newpath with
         | some (some cached) => joinReal fs n cached rest seen
-        | some none => (newpath ++ rest, false, seen)      -- loop: resolved part + rest unchanged
+        | some none => (newpath ++ rest, .loop, seen)      -- loop: resolved part + rest unchanged
         | none =>
           match joinReal fs n (if t.isAbsolute then [] else acc) t.segs ((newpath, none) :: seen) with
-          | (p, false, seen2) => (p ++ rest, false, seen2)
-          | (p, true, seen2) => joinReal fs n p rest ((newpath, some p) :: seen2)
+          | (p, .ok, seen2) => joinReal fs n p rest ((newpath, some p) :: seen2)
+          | (p, o, seen2) => (p ++ rest, o, seen2)
 
 /-- `posixpath.normpath` on the segments of an absolute path -/
 def normSegs (p : Segs) : Segs :=
   p.foldl (fun acc s => if isDot s then acc else if isDotDot s then acc.dropLast else acc ++ [s]) []
 
 /-- `Path.resolve()` as CPython 3.12 implements it -/
-def FS.py312Resolve (fs : FS) (p : PPath) : Option Segs :=
+def FS.py312Resolve (fs : FS) (p : PPath) : Except Err Segs :=
   match joinReal fs fs.fuel [] (if p.isAbsolute then p.segs else fs.cwd ++ p.segs) [] with
-  | (q, true, _) => some (normSegs q)
-  | (q, false, _) =>
+  | (q, .ok, _) => .ok (normSegs q)
+  | (q, .loop, _) =>
     let r := normSegs q
-    -- `p.stat()` of the result: ELOOP ⇒ RuntimeError, any other outcome ⇒ the text is returned
-    match walk fs fs.fuel [] r with
-    | none => none
-    | some _ => some r
+    -- `p.stat()` of the result: embedded NUL ⇒ ValueError, ELOOP ⇒ RuntimeError, any other outcome ⇒ the
+    -- text is returned
+    if r.any hasNul then .error .valueError
+    else match walk fs fs.fuel [] r with
+      | none => .error .runtimeError
+      | some _ => .ok r
+  | (_, .nul, _) => .error .valueError
+  | (_, .fuel, _) => .error .runtimeError
 
-/-- `Path.resolve()` as seen by the loader: a parameter of everything below -/
-abbrev Resolver := PPath → Option Segs
+/-- `Path.resolve()` as seen by the loader: a parameter of everything below.  `RuntimeError` (symlink
+    loop) and `ValueError` (NUL character) are the exceptions the real one raises; the loader turns the
+    `ValueError` of the first call into a `LoadError` and lets `RuntimeError` through -/
+abbrev Resolver := PPath → Except Err Segs
 
 /-! ## `_resolve_load_item_path` -/
-
-inductive Err
-  | loadError | inputError | runtimeError | fileNotFound | valueError | typeError
-  deriving DecidableEq, Repr
 
 /-- file-system accesses and decisions, in program order -/
 inductive Ev
@@ -205,12 +225,14 @@ def resolveLoadItem (cfg : Cfg) (R : Resolver) (spec : Str) (src : Option PPath)
   | .error e => ([], .error e)
   | .ok c =>
     match R c with
-    | none => ([.resolve c], .error .runtimeError)
-    | some p =>
+    -- `except ValueError: raise LoadError(... is not a valid path ...)` (fix 7b14439): e.g. an embedded NUL
+    | .error .valueError => ([.resolve c], .error .loadError)
+    | .error e => ([.resolve c], .error e)
+    | .ok p =>
       -- `if resolved.resolve() != resolved: raise LoadError(...)` (fix dbe9598)
       match R ⟨1, p⟩ with
-      | none => ([.resolve c, .resolve ⟨1, p⟩], .error .runtimeError)
-      | some p2 =>
+      | .error e => ([.resolve c, .resolve ⟨1, p⟩], .error e)
+      | .ok p2 =>
         if p2 != p then ([.resolve c, .resolve ⟨1, p⟩], .error .loadError)
         else
           match cfg.root with
@@ -226,8 +248,8 @@ def resolveLoadItemPreFix (cfg : Cfg) (R : Resolver) (spec : Str) (src : Option 
   | .error e => .error e
   | .ok c =>
     match R c with
-    | none => .error .runtimeError
-    | some p =>
+    | .error e => .error e
+    | .ok p =>
       match cfg.root with
       | none => .ok p
       | some r => if relativeTo ⟨1, p⟩ r then .ok p else .error .loadError
